@@ -77,6 +77,11 @@ def normalise(toks, user_names):
                 and out[i - 2] == "SUBROUTINE"):
             i += 2
             continue
+        # explicit KIND= / LEN= right after the opening parenthesis of a type selector is a documented canonicalisation
+        if (out[i] in ("KIND", "LEN") and i + 1 < len(out) and out[i + 1] == "=" and i >= 2 and out[i - 1] == "("
+                and out[i - 2] in ("REAL", "INTEGER", "COMPLEX", "LOGICAL", "CHARACTER")):
+            i += 2
+            continue
         res.append(out[i])
         i += 1
     return res
